@@ -31,10 +31,15 @@ func init() {
 
 // ---- records emitted by SpatialIndex.tla ---------------------------------
 
+// boundedRec: the spec's mode of the tree ("empty" "on" "off" "stale", SpatialIndex.tla Mode)
+// for a collection that is (cb) or is not a Bounder, elements that are (ee) or are not
+// Extenders, and the bounding flags passed to New (bb) and to every Insert (ib).
 type boundedRec struct {
-	Bb bool `json:"bb"`
-	Ib bool `json:"ib"`
-	V  bool `json:"v"`
+	Cb bool   `json:"cb"`
+	Ee bool   `json:"ee"`
+	Bb bool   `json:"bb"`
+	Ib bool   `json:"ib"`
+	V  string `json:"v"`
 }
 
 type queryRec struct {
@@ -152,10 +157,115 @@ func (l cpts) Bounds() *kdtree.Bounding {
 	return b
 }
 
+// cptsNB: the same Extender elements in a collection that is NOT a Bounder.
+type cptsNB []*cpt
+
+func (l cptsNB) Index(i int) kdtree.Comparable { return l[i] }
+func (l cptsNB) Len() int                      { return len(l) }
+func (l cptsNB) Slice(s, e int) kdtree.Interface {
+	return l[s:e]
+}
+func (l cptsNB) Pivot(d kdtree.Dim) int { return cpts(l).Pivot(d) }
+
+// ---- user types that can do less ---------------------------------------------
+// ppt implements kdtree.Comparable and nothing else: it is NOT an Extender, so
+// Tree.Insert cannot update bounding volumes for it.
+
+type ppt struct {
+	v  []float64
+	id int
+}
+
+func (p *ppt) Compare(c kdtree.Comparable, d kdtree.Dim) float64 { return p.v[d] - c.(*ppt).v[d] }
+func (p *ppt) Dims() int                                          { return len(p.v) }
+func (p *ppt) Distance(c kdtree.Comparable) float64 {
+	q := c.(*ppt)
+	var s float64
+	for i, x := range p.v {
+		s += (x - q.v[i]) * (x - q.v[i])
+	}
+	return s
+}
+
+// ppts is a collection of ppt that is a Bounder (bulk construction can record
+// volumes); its pivot is the last of the elements equal to the median, so that
+// everything to the right is strictly greater.
+type ppts []*ppt
+
+func (l ppts) Index(i int) kdtree.Comparable { return l[i] }
+func (l ppts) Len() int                      { return len(l) }
+func (l ppts) Slice(s, e int) kdtree.Interface {
+	return l[s:e]
+}
+func (l ppts) Pivot(d kdtree.Dim) int {
+	sort.SliceStable(l, func(i, j int) bool { return l[i].v[d] < l[j].v[d] })
+	piv := len(l) / 2
+	for piv+1 < len(l) && l[piv+1].v[d] == l[piv].v[d] {
+		piv++
+	}
+	return piv
+}
+func (l ppts) Bounds() *kdtree.Bounding {
+	if len(l) == 0 {
+		return nil
+	}
+	lo := &ppt{v: append([]float64(nil), l[0].v...), id: -1}
+	hi := &ppt{v: append([]float64(nil), l[0].v...), id: -1}
+	for _, p := range l[1:] {
+		for i, x := range p.v {
+			lo.v[i] = math.Min(lo.v[i], x)
+			hi.v[i] = math.Max(hi.v[i], x)
+		}
+	}
+	return &kdtree.Bounding{Min: lo, Max: hi}
+}
+
+// pptsNB: ppt elements in a collection that is not a Bounder either.
+type pptsNB []*ppt
+
+func (l pptsNB) Index(i int) kdtree.Comparable { return l[i] }
+func (l pptsNB) Len() int                      { return len(l) }
+func (l pptsNB) Slice(s, e int) kdtree.Interface {
+	return l[s:e]
+}
+func (l pptsNB) Pivot(d kdtree.Dim) int { return ppts(l).Pivot(d) }
+
+func mkCpts(pts [][]float64) []*cpt {
+	l := make([]*cpt, len(pts))
+	for i, p := range pts {
+		l[i] = &cpt{v: append([]float64(nil), p...), id: i}
+	}
+	return l
+}
+
+func mkPpts(pts [][]float64) []*ppt {
+	l := make([]*ppt, len(pts))
+	for i, p := range pts {
+		l[i] = &ppt{v: append([]float64(nil), p...), id: i}
+	}
+	return l
+}
+
+// vpt is a user type for the vantage point tree (vptree.Comparable has one method).
+type vpt struct {
+	v  []float64
+	id int
+}
+
+func (p *vpt) Distance(c vptree.Comparable) float64 {
+	q := c.(*vpt)
+	var s float64
+	for i, x := range p.v {
+		s += (x - q.v[i]) * (x - q.v[i])
+	}
+	return math.Sqrt(s)
+}
+
 // ---- adaptors -----------------------------------------------------------
 
 type kdKind struct {
 	name   string
+	cb, ee bool // the collection is a Bounder / the elements are Extenders
 	point  func(c []float64, id int) kdtree.Comparable
 	list   func(pts [][]float64) kdtree.Interface
 	coords func(c kdtree.Comparable) []float64
@@ -163,7 +273,7 @@ type kdKind struct {
 
 var kdKinds = map[string]*kdKind{
 	"kd-points": {
-		name:  "kdtree.Points",
+		name: "kdtree.Points", cb: true, ee: true,
 		point: func(c []float64, id int) kdtree.Comparable { return kdtree.Point(append([]float64(nil), c...)) },
 		list: func(pts [][]float64) kdtree.Interface {
 			l := make(kdtree.Points, len(pts))
@@ -175,16 +285,28 @@ var kdKinds = map[string]*kdKind{
 		coords: func(c kdtree.Comparable) []float64 { return []float64(c.(kdtree.Point)) },
 	},
 	"kd-custom": {
-		name:  "kdtree(custom Comparable)",
-		point: func(c []float64, id int) kdtree.Comparable { return &cpt{v: append([]float64(nil), c...), id: id} },
-		list: func(pts [][]float64) kdtree.Interface {
-			l := make(cpts, len(pts))
-			for i, p := range pts {
-				l[i] = &cpt{v: append([]float64(nil), p...), id: i}
-			}
-			return l
-		},
+		name: "kdtree(custom Extender, Bounder collection)", cb: true, ee: true,
+		point:  func(c []float64, id int) kdtree.Comparable { return &cpt{v: append([]float64(nil), c...), id: id} },
+		list:   func(pts [][]float64) kdtree.Interface { return cpts(mkCpts(pts)) },
 		coords: func(c kdtree.Comparable) []float64 { return c.(*cpt).v },
+	},
+	"kd-ext-nb": {
+		name: "kdtree(custom Extender, collection not a Bounder)", cb: false, ee: true,
+		point:  func(c []float64, id int) kdtree.Comparable { return &cpt{v: append([]float64(nil), c...), id: id} },
+		list:   func(pts [][]float64) kdtree.Interface { return cptsNB(mkCpts(pts)) },
+		coords: func(c kdtree.Comparable) []float64 { return c.(*cpt).v },
+	},
+	"kd-plain": {
+		name: "kdtree(Comparable that is not an Extender, Bounder collection)", cb: true, ee: false,
+		point:  func(c []float64, id int) kdtree.Comparable { return &ppt{v: append([]float64(nil), c...), id: id} },
+		list:   func(pts [][]float64) kdtree.Interface { return ppts(mkPpts(pts)) },
+		coords: func(c kdtree.Comparable) []float64 { return c.(*ppt).v },
+	},
+	"kd-plain-nb": {
+		name: "kdtree(Comparable that is not an Extender, collection not a Bounder)", cb: false, ee: false,
+		point:  func(c []float64, id int) kdtree.Comparable { return &ppt{v: append([]float64(nil), c...), id: id} },
+		list:   func(pts [][]float64) kdtree.Interface { return pptsNB(mkPpts(pts)) },
+		coords: func(c kdtree.Comparable) []float64 { return c.(*ppt).v },
 	},
 }
 
@@ -385,13 +507,50 @@ func (ck *checker) call(routine string, f func()) bool {
 	return true
 }
 
-func (ck *checker) expectBounded() bool {
+// expectMode: the spec's mode of the tree for this variant's user types and flags.
+func (ck *checker) expectMode(kk *kdKind) string {
 	for _, b := range ck.c.Bounded {
-		if b.Bb == ck.o.Bb && b.Ib == ck.o.Ib {
+		if b.Cb == kk.cb && b.Ee == kk.ee && b.Bb == ck.o.Bb && b.Ib == ck.o.Ib {
 			return b.V
 		}
 	}
-	return false
+	return "?"
+}
+
+// checkVolumes walks the exported Node fields: every stored volume must contain every
+// point of its subtree (SpatialIndex.tla VolumeOK: lo <= p <= hi in every coordinate).
+// It returns the number of stored volumes and of those that lost a point.
+func checkVolumes(kk *kdKind, root *kdtree.Node) (boxes, lost int, what string) {
+	var walk func(n *kdtree.Node) [][]float64
+	walk = func(n *kdtree.Node) [][]float64 {
+		if n == nil {
+			return nil
+		}
+		sub := [][]float64{kk.coords(n.Point)}
+		sub = append(sub, walk(n.Left)...)
+		sub = append(sub, walk(n.Right)...)
+		if n.Bounding != nil {
+			boxes++
+			lo, hi := kk.coords(n.Bounding.Min), kk.coords(n.Bounding.Max)
+			out := false
+			for _, p := range sub {
+				for d := range p {
+					if p[d] < lo[d] || hi[d] < p[d] {
+						out = true
+						if what == "" {
+							what = fmt.Sprintf("node %v stores the volume [%v %v]; its subtree holds %v", kk.coords(n.Point), lo, hi, p)
+						}
+					}
+				}
+			}
+			if out {
+				lost++
+			}
+		}
+		return sub
+	}
+	walk(root)
+	return boxes, lost, what
 }
 
 // ---- kdtree -----------------------------------------------------------------
@@ -415,10 +574,34 @@ func (ck *checker) runKd(kk *kdKind, rng *rand.Rand) {
 	if t.Len() != c.N {
 		ck.fail("Len", "value", fmt.Sprintf("Len() = %d, spec says %d", t.Len(), c.N))
 	}
-	wantB := ck.expectBounded()
+	mode := ck.expectMode(kk)
 	gotB := t.Root != nil && t.Root.Bounding != nil
-	if gotB != wantB {
-		ck.fail("Insert", "bounding-mode", fmt.Sprintf("root bounding recorded = %v, spec says %v", gotB, wantB))
+	// "on": bounded; "off" / "empty": no volumes; "stale" (a plain Comparable was inserted into a
+	// bounded tree, the documentation says only that the volumes are not updated): the tree may
+	// stop presenting itself as bounded, or keep volumes that are still right.
+	wantB := mode == "on" || mode == "stale" && gotB
+	if mode == "?" {
+		ck.fail("Insert", "bounding-mode", "the spec record has no mode for this variant")
+	} else if mode != "stale" && gotB != wantB {
+		ck.fail("Insert", "bounding-mode", fmt.Sprintf("root bounding recorded = %v, spec says mode %q", gotB, mode))
+	}
+	if mode == "stale" {
+		if gotB {
+			ck.sum.Count("stale_tree_keeps_root_volume", 1)
+		} else {
+			ck.sum.Count("stale_tree_drops_root_volume", 1)
+		}
+	}
+	if nbox, lost, what := checkVolumes(kk, t.Root); wantB && lost > 0 {
+		ck.fail("Bounding", "volume-loses-subtree-point", fmt.Sprintf("bounded tree (mode %q): %d of %d stored volumes do not contain their subtree: %s", mode, lost, nbox, what))
+	} else if !wantB && nbox > 0 {
+		if mode == "stale" {
+			// leftovers below a root that no longer claims bounds: allowed, counted
+			ck.sum.Count("drift_leftover_volumes_in_unbounded_stale_tree", nbox)
+			ck.sum.Count("drift_leftover_volumes_that_lost_a_point", lost)
+		} else {
+			ck.fail("Bounding", "volume-in-unbounded-tree", fmt.Sprintf("mode %q: %d nodes store a volume although none was ever asked for / possible", mode, nbox))
+		}
 	}
 	if gotB && len(c.Box) == 2 {
 		lo, hi := kk.coords(t.Root.Bounding.Min), kk.coords(t.Root.Bounding.Max)
@@ -594,12 +777,28 @@ func sameCount(a, b map[string]int) bool {
 
 // ---- vptree -----------------------------------------------------------------
 
-func (ck *checker) runVp(effort int, src rand.Source) {
+type vpKind struct {
+	point  func(c []float64, id int) vptree.Comparable
+	coords func(c vptree.Comparable) []float64
+}
+
+var vpKinds = map[string]*vpKind{
+	"vp": {
+		point:  func(c []float64, id int) vptree.Comparable { return vptree.Point(c) },
+		coords: func(c vptree.Comparable) []float64 { return []float64(c.(vptree.Point)) },
+	},
+	"vp-custom": {
+		point:  func(c []float64, id int) vptree.Comparable { return &vpt{v: c, id: id} },
+		coords: func(c vptree.Comparable) []float64 { return c.(*vpt).v },
+	},
+}
+
+func (ck *checker) runVp(vk *vpKind, effort int, src rand.Source) {
 	c := ck.c
 	all := append(append([][]int64{}, c.Built...), c.Ins...)
 	pts := make([]vptree.Comparable, len(all))
 	for i, p := range all {
-		pts[i] = vptree.Point(fl(p))
+		pts[i] = vk.point(fl(p), i)
 	}
 	var t *vptree.Tree
 	var err error
@@ -617,7 +816,7 @@ func (ck *checker) runVp(effort int, src rand.Source) {
 	nv := 0
 	if ck.call("Do", func() {
 		t.Do(func(p vptree.Comparable, depth int) bool {
-			visited[key([]float64(p.(vptree.Point)))]++
+			visited[key(vk.coords(p))]++
 			nv++
 			return false
 		})
@@ -632,14 +831,14 @@ func (ck *checker) runVp(effort int, src rand.Source) {
 			if e.Comparable == nil {
 				got = append(got, cd{nil, e.Dist})
 			} else {
-				got = append(got, cd{[]float64(e.Comparable.(vptree.Point)), e.Dist})
+				got = append(got, cd{vk.coords(e.Comparable), e.Dist})
 			}
 		}
 		return got
 	}
 	for qi := range c.Qs {
 		q := &c.Qs[qi]
-		qp := vptree.Point(fl(q.Q))
+		qp := vk.point(fl(q.Q), -1)
 		var np vptree.Comparable
 		var nd float64
 		if ck.call("Nearest", func() { np, nd = t.Nearest(qp) }) {
@@ -650,7 +849,7 @@ func (ck *checker) runVp(effort int, src rand.Source) {
 			} else if np == nil {
 				ck.fail("Nearest", "nil-point", fmt.Sprintf("q=%v: Nearest returned nil point, distance %v; spec says %v", q.Q, nd, q.Near))
 			} else {
-				ck.checkSet("Nearest", q, []cd{{[]float64(np.(vptree.Point)), nd}}, q.Near, "Nearest", 0, -1, false)
+				ck.checkSet("Nearest", q, []cd{{vk.coords(np), nd}}, q.Near, "Nearest", 0, -1, false)
 			}
 		}
 		for i, k := range c.Ks {
@@ -687,7 +886,7 @@ func atoi(s string, def int) int {
 	return def
 }
 
-// replayIndex: args impls=kd-points,kd-custom,vp reps=N
+// replayIndex: args impls=kd-points,kd-custom,kd-ext-nb,kd-plain,kd-plain-nb,vp,vp-custom reps=N
 // One spec record (a history with the answers of all its queries) is replayed
 // on every implementation, every bounding mode combination (kdtree), every
 // effort (vptree) and reps shuffles / random constructions. Records are
@@ -745,10 +944,10 @@ func replayIndex(in *core.Lines, args []string, seed int64, sum *core.Summary) e
 			rng := rand.New(rand.NewPCG(uint64(seed), uint64(o.Rep)*7919+uint64(j.n)))
 			nv++
 			switch o.Impl {
-			case "vp":
+			case "vp", "vp-custom":
 				ck.impl = "vptree"
 				ck.sqrt = true
-				ck.runVp(o.Eff, rand.NewPCG(uint64(seed)+uint64(o.Rep), uint64(j.n)))
+				ck.runVp(vpKinds[o.Impl], o.Eff, rand.NewPCG(uint64(seed)+uint64(o.Rep), uint64(j.n)))
 			default:
 				kk := kdKinds[o.Impl]
 				if kk == nil {
@@ -769,7 +968,7 @@ func replayIndex(in *core.Lines, args []string, seed int64, sum *core.Summary) e
 		} else {
 			for _, impl := range impls {
 				for rep := 0; rep < reps; rep++ {
-					if impl == "vp" {
+					if impl == "vp" || impl == "vp-custom" {
 						if len(c.Ins) > 0 && len(c.Built) > 0 {
 							// vptree has no Insert: the bag built ++ ins is also
 							// reached by a history with built = {} (same multiset)
